@@ -201,6 +201,36 @@ pub fn run() {
             }
             first
         }
+        "threads-fresh" => {
+            // 8 threads, each compiling a fresh object for every use: compilations of patterns of
+            // both dialects run concurrently with each other and with matching
+            let barrier = std::sync::Barrier::new(8);
+            let defs_ref = &defs;
+            let all: Vec<Vec<(String, String)>> = std::thread::scope(|sc| {
+                let hs: Vec<_> = (0..8)
+                    .map(|_| {
+                        sc.spawn(|| {
+                            barrier.wait();
+                            let getter = move |i: usize| -> &'static Result<Regex, Error> {
+                                let (d, f, p) = &defs_ref[i];
+                                Box::leak(Box::new(compile(d, f, p)))
+                            };
+                            run_history(&ops, &getter)
+                        })
+                    })
+                    .collect();
+                hs.into_iter().map(|h| h.join().unwrap()).collect()
+            });
+            let mut first = all[0].clone();
+            for other in &all[1..] {
+                for (a, b) in first.iter_mut().zip(other.iter()) {
+                    if a.1 != b.1 && !a.1.starts_with("THREAD-MISMATCH") {
+                        a.1 = format!("THREAD-MISMATCH:{}|{}", a.1, b.1);
+                    }
+                }
+            }
+            first
+        }
         _ => panic!("mode"),
     };
     let mut out = String::new();
